@@ -77,10 +77,12 @@ fn run_driver<V, T, O, OT>(d: Driver, v: &V, other: &Vec<i32>, w: usize, path: P
 where
     V: Vec1View<T> + SliceRead<T>,
     T: Elem,
-    O: Vec1<OT> + OutCells,
-    OT: CallNo,
+    O: Vec1<OT> + OutCells + mc_adapt::outbuf::OutBuf<OT>,
+    OT: CallNo + 'static,
 {
     let log: RefCell<Vec<Ev>> = RefCell::new(vec![]);
+    // pre-fill value of the alternative caller buffers (never a call number)
+    let fill = || OT::from_call(999_999);
     let res = catch(|| {
         let next = || log.borrow().len();
         macro_rules! with_out {
@@ -92,6 +94,13 @@ where
                         let r = v.$call::<O, OT, _>($($arg,)* $f, Some(<O as Vec1<OT>>::uninit_ref_mut(&mut buf)));
                         assert!(r.is_none(), "out-buffer form returned a container");
                         unsafe { buf.assume_init() }.cells()
+                    }
+                    Path::BufAlt(k) => {
+                        let vals = <O as mc_adapt::outbuf::OutBuf<OT>>::alt_run(v.len(), k, &fill, |out: <O as Vec1<OT>>::UninitRefMut<'_>| {
+                            let r = v.$call::<O, OT, _>($($arg,)* $f, Some(out));
+                            assert!(r.is_none(), "out-buffer form returned a container");
+                        });
+                        <O as Vec1<OT>>::collect_from_iter(vals.into_iter()).cells()
                     }
                 }
             }};
@@ -126,6 +135,13 @@ where
                         assert!(r.is_none());
                         unsafe { buf.assume_init() }.cells()
                     }
+                    Path::BufAlt(k) => {
+                        let vals = <O as mc_adapt::outbuf::OutBuf<OT>>::alt_run(v.len(), k, &fill, |out: <O as Vec1<OT>>::UninitRefMut<'_>| {
+                            let r = v.rolling2_apply::<O, OT, Vec<i32>, i32, _>(other, w, f, Some(out));
+                            assert!(r.is_none());
+                        });
+                        <O as Vec1<OT>>::collect_from_iter(vals.into_iter()).cells()
+                    }
                 }
             }
             Driver::ApplyIdx2 => {
@@ -141,6 +157,13 @@ where
                         let r = v.rolling2_apply_idx::<O, OT, Vec<i32>, i32, _>(other, w, f, Some(<O as Vec1<OT>>::uninit_ref_mut(&mut buf)));
                         assert!(r.is_none());
                         unsafe { buf.assume_init() }.cells()
+                    }
+                    Path::BufAlt(k) => {
+                        let vals = <O as mc_adapt::outbuf::OutBuf<OT>>::alt_run(v.len(), k, &fill, |out: <O as Vec1<OT>>::UninitRefMut<'_>| {
+                            let r = v.rolling2_apply_idx::<O, OT, Vec<i32>, i32, _>(other, w, f, Some(out));
+                            assert!(r.is_none());
+                        });
+                        <O as Vec1<OT>>::collect_from_iter(vals.into_iter()).cells()
                     }
                 }
             }
@@ -158,6 +181,13 @@ where
                         assert!(r.is_none());
                         unsafe { buf.assume_init() }.cells()
                     }
+                    Path::BufAlt(k) => {
+                        let vals = <O as mc_adapt::outbuf::OutBuf<OT>>::alt_run(v.len(), k, &fill, |out: <O as Vec1<OT>>::UninitRefMut<'_>| {
+                            let r = v.rolling2_custom::<O, OT, Vec<i32>, i32, _>(other, w, f, Some(out));
+                            assert!(r.is_none());
+                        });
+                        <O as Vec1<OT>>::collect_from_iter(vals.into_iter()).cells()
+                    }
                 }
             }
             Driver::CustomIter => {
@@ -171,9 +201,9 @@ where
             }
             // the *_to bodies called directly with a caller buffer
             Driver::ApplyTo | Driver::ApplyIdxTo | Driver::Apply2To | Driver::ApplyIdx2To | Driver::CustomTo => {
-                let mut buf = <O as Vec1<OT>>::uninit(v.len());
-                {
-                    let out = <O as Vec1<OT>>::uninit_ref_mut(&mut buf);
+                macro_rules! to_body {
+                    ($out:expr) => {{
+                    let out = $out;
                     match d {
                         Driver::ApplyTo => v.rolling_apply_to::<O, OT, _>(
                             w,
@@ -223,8 +253,19 @@ where
                             out,
                         ),
                     }
+                    }};
                 }
-                unsafe { buf.assume_init() }.cells()
+                match path {
+                    Path::BufAlt(k) => {
+                        let vals = <O as mc_adapt::outbuf::OutBuf<OT>>::alt_run(v.len(), k, &fill, |out: <O as Vec1<OT>>::UninitRefMut<'_>| to_body!(out));
+                        <O as Vec1<OT>>::collect_from_iter(vals.into_iter()).cells()
+                    }
+                    _ => {
+                        let mut buf = <O as Vec1<OT>>::uninit(v.len());
+                        to_body!(<O as Vec1<OT>>::uninit_ref_mut(&mut buf));
+                        unsafe { buf.assume_init() }.cells()
+                    }
+                }
             }
         }
     });
@@ -351,8 +392,8 @@ impl<'a> Vis<'a> {
     where
         V: Vec1View<T> + SliceRead<T>,
         T: Elem,
-        O: Vec1<OT> + OutCells,
-        OT: CallNo,
+        O: Vec1<OT> + OutCells + mc_adapt::outbuf::OutBuf<OT>,
+        OT: CallNo + 'static,
     {
         let len = self.len;
         let x: Vec<i64> = (0..len as i64).map(|i| 10 + i).collect();
@@ -405,6 +446,12 @@ impl<'a, T: Elem> BackendVisitor<T> for Vis<'a> {
                     self.one::<V, T, Vec<i32>, i32>(name, "iterator", v, d, w, Path::Ret);
                     continue;
                 }
+                // caller buffers in a non-canonical physical layout: wrapped rings, strided / reversed views
+                self.one::<V, T, VecDeque<i32>, i32>(name, "VecDeque(wrapped ring, head 3)", v, d, w, Path::BufAlt(1));
+                self.one::<V, T, VecDeque<i32>, i32>(name, "VecDeque(wrapped ring, head len-1)", v, d, w, Path::BufAlt(2));
+                self.one::<V, T, ndarray::Array1<i32>, i32>(name, "Array1(view, step 2)", v, d, w, Path::BufAlt(1));
+                self.one::<V, T, ndarray::Array1<i32>, i32>(name, "Array1(reversed view)", v, d, w, Path::BufAlt(2));
+                self.one::<V, T, ndarray::Array1<i32>, i32>(name, "Array1(view, step 3, offset 1)", v, d, w, Path::BufAlt(3));
                 if d.direct_to() {
                     self.one::<V, T, Vec<i32>, i32>(name, "Vec", v, d, w, Path::Buf);
                     self.one::<V, T, VecDeque<i32>, i32>(name, "VecDeque", v, d, w, Path::Buf);
